@@ -285,6 +285,14 @@ func (c07) Run(c *Ctx, i int) CaseResult {
 		}
 	}
 	res.Key = fmt.Sprint(in.Spec.SDLs, in.Query, in.StoreSeed, in.Faults)
+	// L2: which objects a follow-up is fetched for (and so which failures can occur at all) is decided by
+	// executorFindInsertionPoints: 6 generated (selection, reply) cases per case against Fp.findPts
+	for k := 0; k < 6; k++ {
+		if ff, _ := FindCorr(c, c.Rand(i*100+k+97000000)); len(ff) > 0 {
+			res.Fails = append(res.Fails, ff...)
+			return res
+		}
+	}
 	rec := &TraceRec{}
 	fc, err := RunFed(c, in, 8*time.Second, gateway.WithLogger(TraceLogger{Rec: rec}))
 	if err != nil {
